@@ -339,6 +339,8 @@ func main() {
 	checkLoggerRace(res, rng, f.Seed, budget)
 	checkCronRace(res, rng, budget)
 	checkCronDescriptors(res, rng, budget)
+	checkCronIndep(res, lib.NewRand(f.Seed*1000003+10), budget)
+	checkInputFail(res, lib.NewRand(f.Seed*1000003+11), budget)
 	checkHandoff(f, res)
 	checkOpenMany(f, res, drv, lib.NewRand(f.Seed*1000003+8))
 	checkFileKeyStress(f, res)
@@ -734,6 +736,18 @@ func replay(f lib.Flags, res *lib.Result, drv *lib.Drv) {
 		checkLoggerOutput(f, res)
 	case "cron-desc":
 		checkCronDescriptors(res, lib.NewRand(f.Seed), 1)
+	case "enc-inputfail":
+		var c inputFailCase
+		_ = json.Unmarshal(rp.Case, &c)
+		replayInputFail(res, c)
+	case "cron-indep":
+		var c cronIndepCase
+		_ = json.Unmarshal(rp.Case, &c)
+		complaint, n := runCronIndep(c)
+		res.Evaluations += n
+		if complaint != "" {
+			res.Violate(findCronIndep, complaint, c)
+		}
 	case "logger-race":
 		var c loggerRaceCase
 		_ = json.Unmarshal(rp.Case, &c)
